@@ -89,7 +89,7 @@ GRAPHS = {
 def module_source(name: str, pkg: dict, visible: int, invisible: int, graph: dict) -> str:
 	"""pkg: module name -> package (directory) name."""
 	def imp(m: str, names: str) -> str:
-		return f'from {pkg[m]}.{m} import {names}\n'
+		return f'from {pkg[m].replace("/", ".")}.{m} import {names}\n'
 	if name == 'ma':
 		t, e, vals = [('int', 'n + 1', (1, 2)), ('str', 'str(n)', (3, 4)), ('float', 'float(n)', (5, 7))][visible]
 		return ('from enum import Enum\n\nclass E(Enum):\n\tA = %d\n\tB = %d\n\nclass K:\n\tx: %s\n\n\tdef __init__(self, x: %s) -> None:\n\t\tself.x = x\n\n'
